@@ -2,7 +2,8 @@
 from pvc.contract import Arr, Contract, Int, LoopSpec, Real, RecArr
 
 K = "sigpyproc/core/kernels.py::"
-MOM = {"count": ("int", "i4"), "m1": ("real", "f4"), "m2": ("real", "f4"), "m3": ("real", "f4"),
+# counts are modelled as mathematical integers (assumption: below 2^31)
+MOM = {"count": ("int", None), "m1": ("real", "f4"), "m2": ("real", "f4"), "m3": ("real", "f4"),
        "m4": ("real", "f4"), "min": ("real", "f4"), "max": ("real", "f4")}
 
 
@@ -10,6 +11,14 @@ def register(reg):
     for name in ("compute_online_moments", "compute_online_moments_basic"):
         c = Contract(K + name, props=["C10"],
                      params={"array": Arr("real", None, view=True), "moments": RecArr(dict(MOM)), "startflag": Int()},
-                     requires=["len(moments) >= 1", "len(array) >= len(moments)"],
-                     modifies=["moments"])
+                     requires=["len(moments) >= 1", "len(array) >= len(moments)",
+                               "forall(c, 0, len(moments), moments['count'][c] >= 0)"],
+                     modifies=["moments"],
+                     # the scalar update is executed symbolically here (its own contract lives in contracts/moments.py)
+                     inline_calls=[K + "update_moments", K + "update_moments_basic"])
+        nonneg = "forall(c, 0, len(moments), moments['count'][c] >= 0)"
+        c.loops["0:ichan"] = LoopSpec([("counts", nonneg)])
+        c.loops["1:ichan"] = LoopSpec([("counts", nonneg)])
+        c.loops["2:isamp"] = LoopSpec([("counts", nonneg), ("count", "count >= 0")])
+        c.ensure("counts", nonneg)
         reg.add(c)
